@@ -291,6 +291,20 @@ def body_sink_events(ctx, b):
     return ev
 
 
+def only_stored(term, p, depth=0):
+    """every occurrence of p in term is a capture of a closure or a component of an aggregate - never an argument of a call"""
+    if term is None or depth > 40:
+        return True
+    if term == p:
+        return True
+    k = term[0]
+    if k == 'closure':
+        return True          # captured: runs only when the closure is called
+    if k == 'call':
+        return not any(x == p for a in term[2] for x in subterms(a) if True) or all(p not in set(subterms(a)) or (a[0] == 'closure') for a in term[2])
+    return all(only_stored(x, p, depth + 1) for x in children(term))
+
+
 @rule('C16', 'LAZY: no transformation / setter / source constructor reaches a terminal, a kernel, a pull or a user-closure call')
 def c16(ctx):
     out = RuleOut('C16')
@@ -394,8 +408,10 @@ def c16(ctx):
                 continue
             if d_ in ('std::clone::Clone::clone', 'std::convert::Into::into', 'std::convert::From::from'):
                 continue
-            # a composition helper: a loop-free crate function whose value is a closure that merely captures what it was given
-            if c['t'].get('local') and cal in F.bodies and not ctx.cfg(F.bodies[cal]).loops() and c['res'] is not None and c['res'][0] == 'closure':
+            # a composition helper: a loop-free crate function in whose value the closure is merely stored - captured by a new closure or
+            # placed in a tuple / struct - and never an operand of a call (`compose(self, then) -> (params, iter, move |x| then(map(x)))`)
+            if c['t'].get('local') and cal in F.bodies and not ctx.cfg(F.bodies[cal]).loops() and c['res'] is not None and \
+                    not (c['res'][0] == 'call' and c['res'][1] == cal) and all(only_stored(c['res'], p_) for p_ in own):
                 continue
             for a in c['args']:
                 hit = [p_ for p_ in own if any(x == p_ for x in subterms(a))]
